@@ -35,14 +35,14 @@ type CLICase struct {
 }
 
 var cliPrograms = map[string]string{
-	"find":    "find all 'ab' (maybe digit) = d",
+	"find":    "find all 'ab' (maybe any) = d",
 	"replace": "replace all 'ab' with '<' value '>'",
 	"failing": "find all (",
 }
 
 var cliFixtures = []map[string]string{
 	{"a.txt": "ab 12 ab3\nxyz ab\n", "b.txt": "12 ab", "c.md": "ab ab", "empty.txt": "", "sub/x.txt": "ab in sub ab7", "sub/y.md": "ab"},
-	{"a.txt": "no match here\n", "b.txt": "\"quoted\" ab \\ <é>\n", "notes.md": "ab", "sub/x.txt": "nothing", "sub/deep/z.txt": "ab"},
+	{"a.txt": "no match here\n", "b.txt": "\"quoted\" ab \\ <é>\nab\x1b[0m ab\x01 ab\x7f\tab\n", "notes.md": "ab", "sub/x.txt": "nothing", "sub/deep/z.txt": "ab"},
 }
 
 func (c CLICase) args() []string {
@@ -202,13 +202,20 @@ func checkCLICase(c CLICase) (sig, what string, nmatch int) {
 	if exit != 0 {
 		return "exit-nonzero", fmt.Sprintf("%s: a documented invocation exited %d; stderr: %.400q", desc, exit, stderr.String()), 0
 	}
-	wantDoc := func() any {
-		var d any
+	wantDoc := func() (d any, p *PanicInfo) {
+		defer func() {
+			if r := recover(); r != nil {
+				p = capturePanic(r)
+			}
+		}()
 		json.Unmarshal([]byte(want.Json()), &d)
-		return d
+		return d, nil
 	}
-	if len(want) > 0 && !c.NoOutput {
-		wd := wantDoc()
+	if len(want) > 0 && !c.NoOutput && (c.JSON || c.FJSON || c.JSONFile || c.FJSONFile) {
+		wd, jp := wantDoc()
+		if jp != nil {
+			return jp.Sig(), "the library panicked while rendering the expected JSON: " + jp.Sig(), len(want)
+		}
 		if c.JSON || c.FJSON {
 			got, err := decodeOne(stdout.Bytes())
 			if err != nil {
